@@ -42,6 +42,10 @@ structure Inst where
 structure St where
   retention : Int := 0
   conv : Bool := false
+  maint : Int := 0          -- period of the real Maintenance loop (0 = none): GC + snapshot at every tick
+  baseA : Int := 0          -- start of instance 0's ticker
+  baseB : Int := 0
+  lastT : Int := 0
   a : Inst := {}
   b : Inst := {}
 
@@ -132,22 +136,56 @@ def stepI (retention : Int) (σ : Inst) (op obs : List String) : Inst × List Ms
     let cur := parseEntries dmp
     let pf := if cur = σ.implPrev then [] else [Msg.propfail "reload_lossless" "reload-changed" s!"before={joinList ";" (σ.implPrev.map showEntry)} after={dmp}"]
     ({ σ with st := st', implPrev := cur }, expectEq "reload.dump" (dump st') dmp ++ pf)
+  | ["reload", now], [dmp] =>
+    -- restart through the maintenance loop: shutdown snapshot (GC at `now` first), then load the file
+    let now := toInt! now
+    let st' := reload (gc now σ.st).1
+    let cur := parseEntries dmp
+    let want := σ.implPrev.filter fun e => e.exp > now
+    let pf := if cur = want then [] else [Msg.propfail "reload_lossless" "reload-changed" s!"before={joinList ";" (want.map showEntry)} after={dmp}"]
+    ({ σ with st := st', implPrev := cur }, expectEq "reload.dump" (dump st') dmp ++ pf ++ [.tag "reload:via-maintenance"])
   | _, _ => (σ, [.diff "parse" "?" (" ".intercalate op)])
 
-def step (σ : St) (op obs : List String) : St × List Msg :=
+/-- GC of the maintenance ticks of one instance in (last, t]. -/
+def applyTicks (maint base last t : Int) (x : Inst) : Inst :=
+  if maint ≤ 0 then x else
+  let k0 := (last - base) / maint
+  let k1 := (t - base) / maint
+  -- ticks k0+1 … k1 (ticks strictly after `last`; the harness never places an op on a tick instant)
+  (List.range (k1 - k0).toNat).foldl (fun (x : Inst) (j : Nat) =>
+    let tick := base + (k0 + 1 + (j : Int)) * maint
+    if tick > base then
+      { st := (gc tick x.st).1, implPrev := x.implPrev.filter fun e => e.exp > tick }
+    else x) x
+
+def opTime (op : List String) : Option Int :=
+  match op with
+  | _ :: _ :: t :: _ => t.toInt?
+  | _ => none
+
+def step (σ0 : St) (op obs : List String) : St × List Msg :=
+  let σ := match opTime op with
+    | some t => if t > σ0.lastT then
+        { σ0 with a := applyTicks σ0.maint σ0.baseA σ0.lastT t σ0.a, b := applyTicks σ0.maint σ0.baseB σ0.lastT t σ0.b, lastT := t } else σ0
+    | none => σ0
   match op, obs with
   | ["converge"], [da, db] =>
     -- C10 convergence, evaluated on the implementation's dumps (header conv=1:
     -- distinct timestamps per key, nothing expires during the case)
     if da = db then (σ, [.tag "converge:checked"] ++ expectEq "converge.a" (dump σ.a.st) da ++ expectEq "converge.b" (dump σ.b.st) db)
     else (σ, [.propfail "fold_merge_perm" "diverged" s!"a={da} b={db}"])
+  | ["reload", i, now], _ =>
+    -- without a maintenance loop the restart is Snapshot() + load, with no GC
+    let (x, msgs) := stepI σ.retention (σ.get i) (if σ.maint > 0 then ["reload", now] else ["reload"]) obs
+    let σ' := σ.set i x
+    (if i = "0" then { σ' with baseA := toInt! now } else { σ' with baseB := toInt! now }, msgs)
   | o :: i :: rest, _ =>
     let (x, msgs) := stepI σ.retention (σ.get i) (o :: rest) obs
     (σ.set i x, msgs)
   | _, _ => (σ, [.diff "parse" "?" (" ".intercalate op)])
 
 def engine : Engine St where
-  init hdr := { retention := kvInt hdr "retention" 0, conv := kv hdr "conv" = some "1" }
+  init hdr := { retention := kvInt hdr "retention" 0, conv := kv hdr "conv" = some "1", maint := kvInt hdr "maint" 0 }
   step := step
 
 end Driver.Nflog
